@@ -324,8 +324,17 @@ bool hasComponentImports(const ComponentEntityConstPtr &componentEntity)
     return importsPresent;
 }
 
-bool hasUnitsImports(const UnitsPtr &units)
+bool hasUnitsImports(const UnitsPtr &units, std::vector<UnitsPtr> &visitedUnits)
 {
+    // Note: units may (wrongly) reference one another in a circular fashion, so
+    //       keep track of the units that we have already visited.
+
+    if (std::find(visitedUnits.begin(), visitedUnits.end(), units) != visitedUnits.end()) {
+        return false;
+    }
+
+    visitedUnits.push_back(units);
+
     bool importPresent = units->isImport();
     auto model = owningModel(units);
     size_t unistCount = units->unitCount();
@@ -333,11 +342,18 @@ bool hasUnitsImports(const UnitsPtr &units)
         std::string reference = units->unitAttributeReference(index);
         if (!reference.empty() && !isStandardUnitName(reference)) {
             if (model->hasUnits(reference)) {
-                importPresent = hasUnitsImports(model->units(reference));
+                importPresent = hasUnitsImports(model->units(reference), visitedUnits);
             }
         }
     }
     return importPresent;
+}
+
+bool hasUnitsImports(const UnitsPtr &units)
+{
+    std::vector<UnitsPtr> visitedUnits;
+
+    return hasUnitsImports(units, visitedUnits);
 }
 
 bool Model::hasImports() const
